@@ -16,6 +16,7 @@
 package extractsev
 
 import (
+	"encoding/binary"
 	"encoding/hex"
 	"errors"
 	"fmt"
@@ -61,8 +62,34 @@ func FromAttestation(at *spb.Attestation) ([]byte, error) {
 	return nil, ErrNotInExtras
 }
 
+// CheckCertTable returns an error if an entry of the certificate table's header names a byte range
+// that does not lie within the table. The check is done in 64 bits: the table parser adds offset and
+// length in 32 bits, so a range that wraps around would pass it and then be sliced out of bounds.
+func CheckCertTable(table []byte) error {
+	for pos := 0; pos+abi.CertTableEntrySize <= len(table); pos += abi.CertTableEntrySize {
+		entry := table[pos : pos+abi.CertTableEntrySize]
+		offset := uint64(binary.LittleEndian.Uint32(entry[16:20]))
+		length := uint64(binary.LittleEndian.Uint32(entry[20:24]))
+		terminator := offset == 0 && length == 0
+		for _, b := range entry[:16] {
+			terminator = terminator && b == 0
+		}
+		if terminator {
+			return nil
+		}
+		if offset+length > uint64(len(table)) {
+			return fmt.Errorf("certificate table entry at %d names bytes [%d, %d) outside the table of %d bytes",
+				pos, offset, offset+length, len(table))
+		}
+	}
+	return nil
+}
+
 // FromCertTable returns the contents of the certificate table entry for the GCE UEFI endorsement.
 func FromCertTable(table []byte) ([]byte, error) {
+	if err := CheckCertTable(table); err != nil {
+		return nil, err
+	}
 	t := new(abi.CertTable)
 	if err := t.Unmarshal(table); err != nil {
 		return nil, err
